@@ -362,6 +362,24 @@ theorem xsd_unknown_component (d : ClassDiagram) (name : String)
     (h : d.containers.find? (fun k => k.isComp && k.name == name) = none) : xsdByName d name = none := by
   unfold xsdByName; rw [h]; rfl
 
+/-- `build_schema` declares the global data types and then those contained in the component THAT ARE NOT GLOBAL
+    (`is_contained_in(s_dt, c_c) and not is_global(s_dt)`, so that a data type is never declared twice).  In the model - which
+    has no package references - a contained data type is never global, so the second condition filters nothing and `xsdSpec`
+    is the list the code produces; no data type row is declared by both loops. -/
+theorem xsd_type_loops_disjoint (d : ClassDiagram) (comp : Nat) :
+    d.dts.filter (fun t => containedIn d.containers comp t.parent && !isGlobal d.containers t.parent) =
+      d.dts.filter (fun t => containedIn d.containers comp t.parent) ∧
+    ∀ t ∈ d.dts, ¬ (isGlobal d.containers t.parent = true ∧ containedIn d.containers comp t.parent = true) := by
+  constructor
+  · apply List.filter_congr
+    intro t _
+    cases h : containedIn d.containers comp t.parent with
+    | false => rfl
+    | true => simp [contained_not_global _ _ _ h]
+  · rintro t _ ⟨hg, hc⟩
+    rw [contained_not_global _ _ _ hc] at hg
+    cases hg
+
 /-! ### non-vacuity -/
 
 /-- Owner (id, name, derived age) / Dog (tag : MyInt, color : Color, owner_id -> Owner.id) / Leash in package
@@ -466,5 +484,13 @@ example : escAttr "a&b<c>\"d".toList = "a&amp;b&lt;c&gt;&quot;d".toList ∧
 /-- one element per line, four blanks per level, `/>` for an element without children -/
 example : nodeText [] (.node "a" [("k", "x&y"), ("m", "")] [.node "b" [("v", "<")] []]) =
     "<a k=\"x&amp;y\" m=\"\">\n    <b v=\"&lt;\"/>\n</a>\n".toList := by decide
+
+
+/-- the type loops on d1: Color and MyInt (package Pkg of the component) come from the second loop only, the core types
+    from the first only -/
+example : (d1.dts.filter (fun t => containedIn d1.containers 6 t.parent && !isGlobal d1.containers t.parent)).map (·.name) =
+    ["Color", "MyInt"] ∧
+    ∀ t ∈ d1.dts, ¬ (isGlobal d1.containers t.parent = true ∧ containedIn d1.containers 6 t.parent = true) :=
+  ⟨by rw [(xsd_type_loops_disjoint d1 6).1]; decide, (xsd_type_loops_disjoint d1 6).2⟩
 
 end PyxProps.C20
